@@ -19,6 +19,7 @@ THEOREMS = {
     'C15_roundtrip': 'printing any well-formed program with ANY lay-out and parsing it back (parse_string) is the identity',
     'C15_roundtrip_nonvacuous': 'a concrete nested program under a concrete lay-out with comments, CRLF, VT: well-formed, printed text as expected, parses back (kernel evaluation)',
     'C15_layout_independent': 'two lay-outs of one program parse to the same value (white space, line breaks, comments, brace spacing)',
+    'C15_commands_table': 'BstParser.COMMANDS as regenerated from /repo equals the reference table of the ten BibTeX commands and their numbers of argument groups',
     'C15_command_case': 'command names are looked up case-insensitively and returned as written',
     'C15_malformed_located': 'well-formed program + offence under ANY lay-out: non-command where a command is due / non-{ where a group is due / text ends with groups due / group never closed => syntax error on the line of the offending lexeme (resp. last line)',
     'C15_malformed_located_nonvacuous': 'concrete instances of the four cases, offence on line 3, and the reference reading names the same lexeme (kernel evaluation)',
@@ -319,9 +320,14 @@ def corpus():
         {'op': 'bstparse', 'kind': 'kat', 'src': 'FUNCTION {f} {"abc\n'},
         {'op': 'bstparse', 'kind': 'kat', 'src': 'ITERATE {x\n\n'},
     ]
-    files = [{'op': 'bstparse', 'kind': 'file', 'file': 'tests/data/%s.bst' % n, 'digest': True} for n in STYLE_FILES
-             if os.path.exists(os.path.join(compat.REPO, 'tests/data/%s.bst' % n))]
-    return known + corpus_for(ID) + files
+    return known + corpus_for(ID)
+
+
+def style_file_cases():
+    """The .bst files of tests/data (the three of tests/bst_parser_test + the others), compared through a digest.
+    Appended after the generated cases so that a small generated input is reported first when something breaks."""
+    return [{'op': 'bstparse', 'kind': 'file', 'file': 'tests/data/%s.bst' % n, 'digest': True} for n in STYLE_FILES
+            if os.path.exists(os.path.join(compat.REPO, 'tests/data/%s.bst' % n))]
 
 
 ATOMS_QUICK = [['Identifier', ':='], ['QuotedVar', 'x'], ['Integer', -1], ['String', '%#{'], ['Identifier', "a'+*"]]
@@ -421,7 +427,7 @@ def gen_corruptions(tier, info):
         bases.append([command(name, body)])
     bases += [[command('ENTRY', body), command('read', [])], [command('Function', body), command('ITERATE', body)],
               [command('sort', []), command('MACRO', body), command('EXECUTE', [['QuotedVar', 'x']])]]
-    layouts = ['space', 'newline'] + (['comment', 'crlf', 'tight'] if tier != 'quick' else [])
+    layouts = ['space', 'newline', 'crlf'] + (['comment', 'tight'] if tier != 'quick' else [])
     cases = []
     ntext = 0
     for prog in bases:
@@ -567,6 +573,7 @@ def gen_cases(tier, rng, info):
         cases.append({'op': 'bstparse', 'kind': 'raw', 'src': rand_raw(rng)})
     for i in range(1000 if q else 30000):
         cases.append({'op': 'bststrip', 'line': rand_line(rng)})
+    cases += style_file_cases()
     return cases
 
 
@@ -579,6 +586,8 @@ LEVEL_TEXT = ('Machine-checked proofs (Lean 4) about an executable model of pybt
 LEVEL_NOTE = ('Trusted: Lean kernel; axioms propext/Classical.choice/Quot.sound only; the hand-written model (Model/BstParse.lean, '
               'Model/Scanner.lean, Model/Lines.lean) corresponds to the Python code only as far as the differential check explores; '
               're, str.splitlines, str.rstrip, str.upper and int() are modelled (ASCII letters/digits), not verified; the arity table is '
-              'regenerated from BstParser.COMMANDS on every run.  The model follows the code REPAIRED by proposed_fixes/C15-1.diff '
-              '(a command with too few groups is a syntax error).  Strings spanning several lines are parsed as the code does, but '
-              'line numbers after them are off (the scanner does not count line breaks inside tokens); they are outside WFProg.')
+              'regenerated from BstParser.COMMANDS on every run and must equal the reference table (theorem C15_commands_table).  The model '
+              'follows the code as repaired by proposed_fixes/C15-1.diff = /repo 5237556 (a command with too few groups is a syntax error).  Strings spanning several lines are parsed as the code does, but '
+              'line numbers after them are off (the scanner does not count line breaks inside tokens) and parse_stream rstrips inside them '
+              '(C15_entry_points_agree_neg); they are outside WFProg.  Not proved: parse_stream round trip for printed programs with trailing '
+              'blanks, end-to-end (source-level) form of the unterminated-string error; both are covered by the correspondence only.')
